@@ -69,6 +69,12 @@ func (c *Calcium) RunAndWait(ctx context.Context, opts *types.DeployOptions, inC
 		commit, err := c.wal.Log(eventCreateLambda, message.WorkloadID)
 		if err != nil {
 			logger.Error(ctx, err)
+			// the workload has been created: without its WAL entry nothing would ever remove it
+			rmCtx, cancel := context.WithCancel(utils.NewInheritCtx(ctx))
+			defer cancel()
+			if e := c.doRemoveWorkloadSync(rmCtx, []string{message.WorkloadID}); e != nil {
+				logger.Error(ctx, e, "Remove lambda workload failed")
+			}
 			return &types.AttachWorkloadMessage{
 				WorkloadID:    message.WorkloadID,
 				Data:          []byte(fmt.Sprintf("Create wal failed: %s, %+v", message.WorkloadID, err)),
